@@ -335,6 +335,10 @@ func replayTotal(args []string) int {
 			s.Skipped++
 			return
 		}
+		if s.ShapeCounts["hang"] >= 6 || s.MismatchCount >= 40 {
+			s.Skipped++ // enough to report: every hanging input costs a whole watchdog period, and the generator is waiting
+			return
+		}
 		src := bytesOf(c.Src)
 		if c.Shape != "" {
 			src = []byte(scaleSource(c.Shape, c.N))
